@@ -130,6 +130,25 @@ Definition with_cur (st : rstate) (c : option (gcell * bool)) : rstate :=
   {| s_name := s_name st; s_units := s_units st; s_done := s_done st; s_cur := c; s_open := s_open st;
      s_width := s_width st; s_key := s_key st; s_path_started := s_path_started st |}.
 
+Definition with_name (st : rstate) (n : bytes) : rstate :=
+  {| s_name := n; s_units := s_units st; s_done := s_done st; s_cur := s_cur st; s_open := s_open st;
+     s_width := s_width st; s_key := s_key st; s_path_started := s_path_started st |}.
+Definition with_units (st : rstate) (u : N * N) : rstate :=
+  {| s_name := s_name st; s_units := u; s_done := s_done st; s_cur := s_cur st; s_open := s_open st;
+     s_width := s_width st; s_key := s_key st; s_path_started := s_path_started st |}.
+Definition with_done (st : rstate) (d : list gcell) : rstate :=
+  {| s_name := s_name st; s_units := s_units st; s_done := d; s_cur := s_cur st; s_open := s_open st;
+     s_width := s_width st; s_key := s_key st; s_path_started := s_path_started st |}.
+Definition with_width (st : rstate) (w : Z) : rstate :=
+  {| s_name := s_name st; s_units := s_units st; s_done := s_done st; s_cur := s_cur st; s_open := s_open st;
+     s_width := w; s_key := s_key st; s_path_started := s_path_started st |}.
+Definition with_key (st : rstate) (k : N) : rstate :=
+  {| s_name := s_name st; s_units := s_units st; s_done := s_done st; s_cur := s_cur st; s_open := s_open st;
+     s_width := s_width st; s_key := k; s_path_started := s_path_started st |}.
+Definition with_started (st : rstate) (b : bool) : rstate :=
+  {| s_name := s_name st; s_units := s_units st; s_done := s_done st; s_cur := s_cur st; s_open := s_open st;
+     s_width := s_width st; s_key := s_key st; s_path_started := b |}.
+
 (* the library as returned at ENDLIB: cells in order of their STRNAME records *)
 Definition flush_cur (st : rstate) : list gcell :=
   match s_cur st with
@@ -212,14 +231,11 @@ Definition step_gds (filter : option (list (Z * Z))) (st : rstate) (r : grecord)
   let dl := data_length (dtype r) (payload r) in
   match kind_of (rtype r) with
   | KSkip => SCont st                                      (* HEADER BGNLIB ENDSTR *)
-  | KLibname => SCont {| s_name := strip_nul (payload r); s_units := s_units st; s_done := s_done st; s_cur := s_cur st;
-                  s_open := s_open st; s_width := s_width st; s_key := s_key st; s_path_started := s_path_started st |}
-  | KUnits => SCont {| s_name := s_name st; s_units := (d64 mem 0, d64 mem 1); s_done := s_done st; s_cur := s_cur st;
-                  s_open := s_open st; s_width := s_width st; s_key := s_key st; s_path_started := s_path_started st |}
+  | KLibname => SCont (with_name st (strip_nul (payload r)))
+  | KUnits => SCont (with_units st (d64 mem 0, d64 mem 1))
   | KEndlib => SRet {| g_name := s_name st; g_units := s_units st; g_cells := flush_cur st |}      (* ENDLIB *)
   | KBgnstr => (* BGNSTR *)
-      SCont {| s_name := s_name st; s_units := s_units st; s_done := flush_cur st; s_cur := Some (empty_cell, false);
-               s_open := s_open st; s_width := s_width st; s_key := s_key st; s_path_started := s_path_started st |}
+      SCont (with_cur (with_done st (flush_cur st)) (Some (empty_cell, false)))
   | KStrname => (* STRNAME *)
       match s_cur st with
       | Some (c, _) =>
@@ -228,9 +244,7 @@ Definition step_gds (filter : option (list (Z * Z))) (st : rstate) (r : grecord)
       | None => SCont st
       end
   | KBoundary => SCont (with_open st (Some (EPoly new_poly)))                     (* BOUNDARY BOX *)
-  | KPath => SCont {| s_name := s_name st; s_units := s_units st; s_done := s_done st; s_cur := s_cur st;
-                       s_open := Some (EPath new_path); s_width := 0%Z; s_key := s_key st;
-                       s_path_started := false |}                                  (* PATH RAITHMBMSPATH *)
+  | KPath => SCont (with_started (with_width (with_open st (Some (EPath new_path))) 0%Z) false)                                  (* PATH RAITHMBMSPATH *)
   | KRef => SCont (with_open st (Some (ERef new_ref)))                      (* SREF AREF *)
   | KText => SCont (with_open st (Some (ELabel new_label)))                       (* TEXT *)
   | KLayer => (* LAYER *)
@@ -251,8 +265,7 @@ Definition step_gds (filter : option (list (Z * Z))) (st : rstate) (r : grecord)
       end
   | KWidth => (* WIDTH *)
       let w := d32 mem 0 in
-      let st' := {| s_name := s_name st; s_units := s_units st; s_done := s_done st; s_cur := s_cur st; s_open := s_open st;
-                    s_width := Z.abs w; s_key := s_key st; s_path_started := s_path_started st |} in
+      let st' := with_width st (Z.abs w) in
       match s_open st with
       | Some (EPath h) => SCont (with_open st' (Some (EPath {| h_layer := h_layer h; h_type := h_type h; h_end := h_end h; h_width := h_width h;
                                h_scale_width := (0 <=? w)%Z; h_ext := h_ext h; h_pts := h_pts h; h_props := h_props h |})))
@@ -266,11 +279,9 @@ Definition step_gds (filter : option (list (Z * Z))) (st : rstate) (r : grecord)
       | Some (EPath h) =>
           (* the width recorded for the element is the value of `width` when the FIRST XY arrives *)
           let w := if s_path_started st then h_width h else s_width st in
-          SCont {| s_name := s_name st; s_units := s_units st; s_done := s_done st; s_cur := s_cur st;
-                   s_open := Some (EPath {| h_layer := h_layer h; h_type := h_type h; h_end := h_end h; h_width := w;
+          SCont (with_started (with_open st (Some (EPath {| h_layer := h_layer h; h_type := h_type h; h_end := h_end h; h_width := w;
                                h_scale_width := h_scale_width h; h_ext := h_ext h;
-                               h_pts := h_pts h ++ points_of mem (dl / 2); h_props := h_props h |});
-                   s_width := s_width st; s_key := s_key st; s_path_started := true |}
+                               h_pts := h_pts h ++ points_of mem (dl / 2); h_props := h_props h |}))) true)
       | Some (ERef rf) =>
           let origin := (d32 mem 0, d32 mem 1) in
           let rep := match r_rep rf with
@@ -378,8 +389,7 @@ Definition step_gds (filter : option (list (Z * Z))) (st : rstate) (r : grecord)
       | _ => SCont st
       end
   | KPropattr => (* PROPATTR *)
-      SCont {| s_name := s_name st; s_units := s_units st; s_done := s_done st; s_cur := s_cur st; s_open := s_open st;
-               s_width := s_width st; s_key := Z.to_N (d16 mem 0 mod 65536); s_path_started := s_path_started st |}
+      SCont (with_key st (Z.to_N (d16 mem 0 mod 65536)))
   | KPropvalue => (* PROPVALUE *)
       match s_open st with
       | Some e => SCont (with_open st (Some (set_props e (s_key st) (cstring (payload r)))))
